@@ -232,7 +232,7 @@ type mon struct{}
 func (mon) Name() string { return "urlpath" }
 
 func (mon) Level(string) (string, string) {
-	return "exploration", "exhaustive: every string up to the stated length over {'/','.','a','\\'} x 12 spellings of the base (lexical model) and x 5 absolute + 7 relative (after chdir) spellings of a base inside a temporary tree with secrets outside (kernel-judged: inode and content reached by stat/open of the result); plus seeded random longer paths (segments '..', '...', '. .', '%2e%2e', backslash forms, SECRET, arbitrary NUL-free bytes) and random bases. distinct_nontrivial = distinct URL paths whose evaluation discards at least one '..' at the root of the URL path, i.e. that try to climb out of the base (lexical shards), and distinct (base, path) pairs of that kind (canary shards). History shards: sequences of calls in one process, each call judged by the same oracles - for bases with '..' inside and every textual cut base = A + rest at a '/', the two different questions (base, p) and (A, rest+p) with the same concatenation, back to back (each twice), in both orders (separate processes) and in batches of 40 / 250 such groups (first calls of all groups, then the counterpart calls), lexically and inside the canary tree; plus random segment strings all of whose cuts are asked in random order; distinct_nontrivial there = distinct colliding pairs. Retained results: in every shard the results of the last 64 calls are kept exactly as returned next to a copy taken at return; after every call the 4 most recent, every 16 calls and at the end all kept strings must still equal their copy (a changed one is judged again for containment); plus concurrent scenarios (4 / 16 goroutines with bases of their own calling at once, each checking its own 32 kept results after each of its calls). The thorough tier adds, with the same oracles: the first alphabet exhaustively to length 11 (12 bases) and 12 (4 bases) lexically and to length 10 in the canary tree; a second alphabet of 12 symbols ('/', '.', 'a', '\\', '%', '%2e', ' ', ':', '~', 0x01, a two-byte rune, a lone 0xff) to length 6 (12 bases, canary to 5) and 7 (4 bases); a third alphabet whose symbols are whole segments ('/', '..', '.', 'a', '//', '/../', '\\', 'SECRET') to length 7 (canary 6); 94 further spellings of the base (relative, '..' inside, trailing slashes, blanks and dots, symlink-like names, backslashes, Unicode and non-UTF-8 bytes, 3-5 KiB long) under the first alphabet to length 9 (long ones 7), the other alphabets shorter, and under random paths; 23 further spellings of the canary bases to length 8; long paths (thousands of segments, '..' runs up to 6000 deep, single segments of 4-16 KiB, random NUL-free byte strings up to 8 KiB) lexically and in the canary tree; histories with paths to length 6, batches of 1000 groups, seeded shuffles of 300 groups, the further bases with all their cuts, and 4 M random cut families; concurrent scenarios with 2..64 goroutines at GOMAXPROCS 2, 4 and 16, and with 4 / 16 goroutines in a -race build made by the shard itself (a race report with a glb frame or a runtime crash is a violation)"
+	return "exploration", "exhaustive: every string up to the stated length over {'/','.','a','\\'} x 12 spellings of the base (lexical model) and x 5 absolute + 7 relative (after chdir) spellings of a base inside a temporary tree with secrets outside (kernel-judged: inode and content reached by stat/open of the result); plus seeded random longer paths (segments '..', '...', '. .', '%2e%2e', backslash forms, SECRET, arbitrary NUL-free bytes) and random bases. distinct_nontrivial = distinct URL paths whose evaluation discards at least one '..' at the root of the URL path, i.e. that try to climb out of the base (lexical shards), and distinct (base, path) pairs of that kind (canary shards). History shards: sequences of calls in one process, each call judged by the same oracles - for bases with '..' inside and every textual cut base = A + rest at a '/', the two different questions (base, p) and (A, rest+p) with the same concatenation, back to back (each twice), in both orders (separate processes) and in batches of 40 / 250 such groups (first calls of all groups, then the counterpart calls), lexically and inside the canary tree; plus random segment strings all of whose cuts are asked in random order; distinct_nontrivial there = distinct colliding pairs. Retained results: in every shard the results of the last 64 calls are kept exactly as returned next to a copy taken at return; after every call the 4 most recent, every 16 calls and at the end all kept strings must still equal their copy (a changed one is judged again for containment); plus concurrent scenarios (4 / 16 goroutines with bases of their own calling at once, each checking its own 32 kept results after each of its calls). Byte sweep: every byte 0x01..0xff and 9 multi-byte runes in the first, the last and a middle position of 21 short climbing path shapes x 12 bases lexically and x the 12 canary spellings. The thorough tier adds, with the same oracles: the first alphabet exhaustively to length 11 (12 bases) and 12 (4 bases) lexically and to length 10 in the canary tree; a second alphabet of 12 symbols ('/', '.', 'a', '\\', '%', '%2e', ' ', ':', '~', 0x01, a two-byte rune, a lone 0xff) to length 6 (12 bases, canary to 5) and 7 (4 bases); a third alphabet whose symbols are whole segments ('/', '..', '.', 'a', '//', '/../', '\\', 'SECRET') to length 7 (canary 6); 94 further spellings of the base (relative, '..' inside, trailing slashes, blanks and dots, symlink-like names, backslashes, Unicode and non-UTF-8 bytes, 3-5 KiB long) under the first alphabet to length 9 (long ones 7), the other alphabets shorter, and under random paths; 23 further spellings of the canary bases to length 8; long paths (thousands of segments, '..' runs up to 6000 deep, single segments of 4-16 KiB, random NUL-free byte strings up to 8 KiB) lexically and in the canary tree; histories with paths to length 6, batches of 1000 groups, seeded shuffles of 300 groups, the further bases with all their cuts, and 4 M random cut families; concurrent scenarios with 2..64 goroutines at GOMAXPROCS 2, 4 and 16, and with 4 / 16 goroutines in a -race build made by the shard itself (a race report with a glb frame or a runtime crash is a violation)"
 }
 
 func (mon) Assumptions(string) []string {
@@ -249,7 +249,7 @@ func (mon) Assumptions(string) []string {
 
 func (mon) Finish(prop, tier string, m *drv.Merged) []string {
 	var out []string
-	need := []string{"fs_selftest_ok", "fs_hit_inside_below_base", "fs_read_inside", "fs_dotfree_entry_checked", "climb_attempts", "dotfree_paths", "fs_rel_cases", "fs_abs_cases", "exact_model_agreement", "hist_calls", "hist_colliding_pairs", "hist_fs_calls", "retained_checks", "conc_calls", "conc_retained_checks"}
+	need := []string{"fs_selftest_ok", "fs_hit_inside_below_base", "fs_read_inside", "fs_dotfree_entry_checked", "climb_attempts", "dotfree_paths", "fs_rel_cases", "fs_abs_cases", "exact_model_agreement", "hist_calls", "hist_colliding_pairs", "hist_fs_calls", "retained_checks", "conc_calls", "conc_retained_checks", "byte_sweep_cases"}
 	if tier == "thorough" {
 		need = append(need, "alphabet2_cases", "alphabet3_cases", "extra_bases_cases", "extra_canary_bases_cases", "long_path_cases",
 			"hist_shuffled_histories", "hist_wide_pairs", "race_binary_built", "race_conc_calls")
@@ -337,6 +337,10 @@ func (mon) Plan(prop, tier string, seed int64) []drv.Shard {
 	for _, g := range []int{4, 16} {
 		add(fmt.Sprintf("retain-conc-g%d", g), false, shardArgs{Kind: "retain-conc", Parts: g, Count: cc})
 	}
+	// byte sweep: every byte (and a few runes) first / last / in the middle of climbing paths
+	add("byte-sweep-lex", false, shardArgs{Kind: "byte-sweep"})
+	add("byte-sweep-fs-abs", false, shardArgs{Kind: "byte-sweep-fs"})
+	add("byte-sweep-fs-rel", true, shardArgs{Kind: "byte-sweep-fs", Rel: true})
 	if tier == "thorough" {
 		out = append(out, planDeep(add)...)
 	}
@@ -796,6 +800,36 @@ func (mn mon) Run(sh drv.Shard, c *drv.Ctx) {
 				c.Sample(map[string]any{"mode": cs.Mode, "base": q(cs.Base), "path_len": len(cs.Path), "path_head": strconv.QuoteToASCII(string(cs.Path[:min(60, len(cs.Path))])), "discarded_dotdots": climbs})
 			}
 			if !exec(asHistory(cs)) {
+				break
+			}
+		}
+	case "byte-sweep", "byte-sweep-fs":
+		for _, p := range sweepPaths() {
+			_, climbs := urlSegments(string(p))
+			ok := true
+			if a.Kind == "byte-sweep" {
+				if climbs > 0 {
+					c.DistinctStr("sweep\x00" + string(p))
+				}
+				for _, b := range lexBases {
+					st.add("byte_sweep_cases", 1)
+					if ok = exec(Case{Mode: "lex", Base: b, Path: p}); !ok {
+						break
+					}
+				}
+			} else {
+				for _, b := range fsb {
+					if climbs > 0 {
+						c.DistinctStr("sweepfs\x00" + b.Base + "\x00" + string(p))
+					}
+					st.add("byte_sweep_cases", 1)
+					st.add(fsKey, 1)
+					if ok = exec(Case{Mode: "fs", Base: b.Base, Path: p, Dir: b.Dir, Chdir: b.Chdir}); !ok {
+						break
+					}
+				}
+			}
+			if !ok {
 				break
 			}
 		}
